@@ -267,3 +267,33 @@ def fx_simdsign(fx):
     c = _ctx()
     n = simdsign.run(c, fx)
     return n >= 2 and _fires(c, "simdsign::bad_memcmp16") and not _fires(c, "simdsign::ok_memcmp16")
+
+
+def fx_shrink(fx):
+    from rules import shrink
+    c1, c2 = _ctx(), _ctx()
+    n1 = shrink.run(c1, fx, "src/lib.rs", "shrink::Bits", "len", "blocks")
+    n2 = shrink.run(c2, fx, "src/lib.rs", "shrink::BadBits", "len", "blocks")
+    return n1 == 1 and not c1.violations and n2 == 1 and _fires(c2, "BadBits::pop")
+
+
+def fx_remainder(fx):
+    from rules import remainder
+    c = _ctx()
+    n = remainder.run(c, fx, ["src/lib.rs"])
+    return n >= 2 and _fires(c, "shrink::bad_max") and not _fires(c, "shrink::ok_max")
+
+
+def fx_wrap(fx):
+    from rules import wrap
+    c1, c2 = _ctx(), _ctx()
+    n1 = wrap.run(c1, fx, "src/lib.rs", "wrap::Ring")
+    n2 = wrap.run(c2, fx, "src/lib.rs", "wrap::BadRing")
+    return n1 == 1 and not c1.violations and n2 == 1 and _fires(c2, "BadRing::bad_bulk")
+
+
+def fx_emptyrange(fx):
+    from rules import shrink
+    c = _ctx()
+    shrink.empty_range(c, fx, ["src/lib.rs"])
+    return _fires(c, "V::bad_shrink") and not _fires(c, "V::ok_shrink")
